@@ -246,7 +246,8 @@ def write_evidence(prop, tier, coverage, wall, violations, assumptions, level="m
 
 
 def save_replay(prop, name, payload):
-    d = os.path.join(ROOT, "replays")
+    # replays of runs against a deliberately broken tree (seed evaluation) stay out of the repo
+    d = os.path.join(WORK, "replays") if os.environ.get("VERIF_SCRATCH_REPLAYS") else os.path.join(ROOT, "replays")
     os.makedirs(d, exist_ok=True)
     p = os.path.join(d, "%s_%s.json" % (prop, name))
     with open(p, "w") as f:
